@@ -237,6 +237,14 @@ class ValueSpecBase(ValueSpec):
       raise TypeError(f'{self!r} cannot extend {base!r}: '
                       f'None is not allowed in base spec.')
     self._extend(base)  # pytype: disable=wrong-arg-types  # always-use-return-annotations
+    if MISSING_VALUE != self._default and not self._frozen:
+      # The default value must remain acceptable under the narrowed constraints.
+      try:
+        self.skip_user_transform.apply(self._default, allow_partial=True)
+      except (TypeError, ValueError) as e:
+        raise TypeError(
+            f'{self!r} cannot extend {base!r}: default value '
+            f'{self._default!r} is not acceptable after extension.') from e
     return self
 
   def _extend(self, base: ValueSpec) -> None:
